@@ -186,12 +186,14 @@ fn spec_strategy() -> BoxedStrategy<ReqSpec> {
             confirm_timeout: to,
             persist: Some(Some(t)),
             persist_id: None,
+            order: 0,
         }),
         2 => txt().prop_map(|t| ReqSpec::Commit {
             confirmed: None,
             confirm_timeout: None,
             persist: None,
             persist_id: Some(Some(t)),
+            order: 0,
         }),
         2 => txt().prop_map(|t| ReqSpec::CancelCommit { persist_id: Some(Some(t)) }),
         3 => txt().prop_map(|t| ReqSpec::OpenConfiguration {
